@@ -56,6 +56,19 @@ def run(pid):
     rep.cov["evaluations"] += n2
     total += len(sc2)
     rep.cov["samples"].append(sc2[0]["ops"][:14])
+    # 2b. (C07) recovered states: a few traced histories, every sampled crash image recovered by the real OpenStore and
+    #     continued (writes, flush, GC cycles, reopen by rescan); the F-rules are evaluated on the projections of the
+    #     continuation.  (C03 does this at length; here only failures of an F-rule are reported.)
+    if pid == "C07":
+        import c03
+        cs, rc = c03.scenarios_c03(rng, 24 if thorough else 6, 20, 400 if thorough else 70, False)
+        rep.cov["transitions"] += rc.states
+        vc, kc, _ = c03.run_crash(rep, cs, "c07")
+        for what, obj in vc:
+            if any(str(r).startswith("F") for r in obj.get("rules", [])):
+                rep.violation("recovered state: " + what, obj)
+        rep.cov["crash_images_recovered_and_projected"] = rep.cov.get("crash_images", 0)
+        total += len(cs)
     # 3. (C13) interleavings: foreground calls x commit (StoreConc.tla schedules) and freelist Put / Flush / hand-over
     #    (a primary-GC cycle parked at each of its yield points, incl. inside ToGC between rename and reopen, while a call
     #    supersedes a location and a commit runs); F7 + F4 on the projection of the real files when everything has finished
@@ -171,6 +184,9 @@ def freelist_part(rep, rng, thorough):
 def replay(pid, path):
     with open(path) as f:
         eng = json.load(f).get("engine")
+    if eng == "crash":
+        import c03
+        return _replay_crash(pid, path)
     if eng == "flist":
         rep = vlib.Report(pid, replay=True)
         vlib.build_harness()
@@ -186,6 +202,18 @@ def replay(pid, path):
             rep.violation("rules %s in the files after a concurrent history" % ",".join(rules), {"engine": "conc", "scenario": sc, "rules": rules})
         return rep.finish()
     return replay_seq(pid, path)
+
+
+def _replay_crash(pid, path):
+    import c03
+    rep = vlib.Report(pid, replay=True)
+    vlib.build_harness()
+    viol, known, _ = c03.run_crash(rep, [json.load(open(path))["scenario"]], "replay")
+    for what, o in viol:
+        if any(str(r).startswith("F") for r in o.get("rules", [])):
+            rep.violation("recovered state: " + what, o)
+    print("replay: %d failing images" % len(viol))
+    return rep.finish()
 
 
 def replay_seq(pid, path):
